@@ -113,6 +113,8 @@ def gen_spec(rng: random.Random, feat=None):
                     ts['group'] = g
             if rng.random() < 0.2:
                 mn = rng.choice(['custom', 'data', 'x_' + snake(cls)]) + str(ti)
+                if rng.random() < 0.25:
+                    mn = f'step{mi}{ti}_task'      # an explicit name is used verbatim (only class-derived names lose a `_task` suffix)
                 if mn not in used_names:
                     ts['meta_name'] = mn
                     used_names.add(mn)
